@@ -203,12 +203,14 @@ def random_msm_cases(ident, seed, n):
             sigs |= set(rnd.sample(rnd.choice(same), 2))
         while len(sigs) < rnd.choice((1, 2, 3)):
             sigs.add(rnd.choice(list(sigmap)) if rnd.random() < 0.7 else rnd.randint(1, 32))
+        if i % 3 == 2:
+            sigs.add(next(x for x in rnd.sample(range(1, 33), 32) if x not in sigmap))     # a reserved signal ID, used by a cell
         m394 = sum(1 << (64 - s_) for s_ in sats)
         m395 = sum(1 << (32 - g_) for g_ in sigs)
         wc = len(sats) * len(sigs)
         if wc > 24:
             continue
-        m396 = rnd.getrandbits(wc) if i % 3 else (1 << wc) - 1
+        m396 = rnd.getrandbits(wc) if i % 3 == 1 else (1 << wc) - 1
 
         def choose(name, w, what, m394=m394, m395=m395, m396=m396):
             if name == "DF394":
